@@ -10,7 +10,7 @@ BASELINE = ('cd /repo && /venv/bin/python -m pytest -ra -q -p no:cacheprovider -
 CLAIMED = {}
 
 # properties whose checks have been integrated and validated on the clean tree
-INTEGRATED = ['C01', 'C02', 'C03', 'C04', 'C05', 'C06', 'C07', 'C08', 'C09', 'C11', 'C12', 'C13', 'C14', 'C15', 'C16', 'C17', 'C18', 'C19', 'C20']
+INTEGRATED = ['C01', 'C02', 'C03', 'C04', 'C05', 'C06', 'C07', 'C08', 'C09', 'C10', 'C11', 'C12', 'C13', 'C14', 'C15', 'C16', 'C17', 'C18', 'C19', 'C20']
 
 PENDING_REASON = 'check not built yet at this commit (planned in DESIGN.md §5; no other technique is substituted)'
 
